@@ -183,6 +183,13 @@ theorem head_dictFromPairs (ps : List (K × V)) (d : List (K × V)) (p : K × V)
     · simp only [dictSet, e, if_true]; exact ih _ _
     · simp only [dictSet, e, if_false]; exact ih _ _
 
+theorem map_eq_self {α : Type} (f : α → α) (xs : List α) (h : ∀ x ∈ xs, f x = x) : xs.map f = xs := by
+  induction xs with
+  | nil => rfl
+  | cons x xs ih =>
+    simp only [List.map_cons]
+    rw [h x (by simp), ih (fun y hy => h y (by simp [hy]))]
+
 /-! ### Exported names -/
 
 theorem exportNames_sub (names : List String) (b : Bool) : ∀ k ∈ exportNames names b, k ∈ names := by
